@@ -202,5 +202,24 @@ def run_case(case):
                                         "weighted %r repeated %r %s" % (sw, sr, desc))
                             except Exception as e:
                                 bad("fit raises %s" % type(e).__name__, cond + ",repeated rows", "%s %s" % (str(e)[:200], desc))
+    # integer-dtype targets (counts): the same numbers as float64 must give the same fit and the same score
+    for ys in case["ys"][:2]:
+        yi = numpy.array([3 * v + (i * i) % 5 for i, v in enumerate(ys)], dtype=numpy.int64)
+        yf = yi.astype(numpy.float64)
+        for q in (0.25, 0.5, 0.9):
+            cnt += 1
+            try:
+                mi = QuantileLinearRegression(quantile=q, max_iter=200).fit(X, yi)
+                mf = QuantileLinearRegression(quantile=q, max_iter=200).fit(X, yf)
+            except Exception:
+                continue   # a zero residual can make every IRLS weight vanish: outside the property's quantifier
+            qc = "q=0.5" if q == 0.5 else "q!=0.5"
+            if not numpy.allclose(mi.predict(X), mf.predict(X), rtol=1e-9, atol=1e-9):
+                bad("integer-dtype targets give another fit than the same targets as float64", qc,
+                    "y=%r q=%s int fit %r float fit %r" % (yi.tolist(), q, mi.predict(X).tolist(), mf.predict(X).tolist()))
+            si, sf = float(mi.score(X, yi)), float(mf.score(X, yf))
+            exp = 2 * pinball(yf, mf.predict(X), q).mean()
+            if abs(sf - exp) > 1e-9 * max(1.0, abs(exp)) or abs(si - sf) > 1e-9 * max(1.0, abs(sf)):
+                bad("score != 2 * mean pinball loss", "%s,integer-dtype targets" % qc, "int %r float %r expected %r y=%r" % (si, sf, exp, yi.tolist()))
     return {"viol": viol, "nontrivial": any(len(set(v)) > 1 for v in case["ys"]), "states": cnt,
             "transitions": cnt * 8, "outcome": (d, n)}
